@@ -155,6 +155,7 @@ func HarnessC19Options() {
 		val int
 	}
 	var anns []ann
+	var rtrace, rmws []int
 	for j := 0; j < r; j++ {
 		tag := string(rune('0' + j))
 		switch sym.Choose("rk"+tag, 5) {
@@ -183,7 +184,13 @@ func HarnessC19Options() {
 					routeInvalid = 1
 				}
 			} else {
-				ropts = append(ropts, fox.WithMiddleware(passMW))
+				id := j
+				ropts = append(ropts, fox.WithMiddleware(func(next fox.HandlerFunc) fox.HandlerFunc {
+					return func(c fox.Context) { rtrace = append(rtrace, id); next(c) }
+				}))
+				if routeInvalid == 0 {
+					rmws = append(rmws, id)
+				}
 			}
 		case 4:
 			ki := sym.Choose("ak"+tag, nAnnotationKeys)
@@ -230,6 +237,17 @@ func HarnessC19Options() {
 	}
 	sym.Cover("route options compared")
 	check(rte, route, "route with options")
+	// the route-specific middleware: exactly the ones given, in the order given
+	tctx := fox.NewTestContextOnly(&nullWriter{h: http.Header{}}, &http.Request{Method: "GET", URL: &url.URL{Path: "/opt/1"}})
+	rtrace = nil
+	rte.HandleMiddleware(tctx)
+	sym.Assert(sameInts(rtrace, rmws), "Route.HandleMiddleware runs exactly the route's own middleware, in the order given")
+	if len(rmws) >= 2 {
+		sym.Cover("two route middleware in order")
+	}
+	rtrace = nil
+	rte.Handle(tctx)
+	sym.Assert(len(rtrace) == 0, "Route.Handle runs the bare handler")
 	for _, a := range anns {
 		// the last value set for the key wins
 		last := a.val
